@@ -90,6 +90,75 @@ theorem C06_linecol_strict_mono (s : List Char) (p q : Nat) (h : p < q) :
 example : posToLineCol "ab\ncd".toList 1 = (1, 2) ∧ posToLineCol "ab\ncd".toList 2 = (1, 3) ∧
     posToLineCol "ab\ncd".toList 3 = (2, 1) := by decide
 
+/-- the first character of every text is at line 1, column 1 -/
+theorem C06_linecol_origin (s : List Char) : posToLineCol s 0 = (1, 1) := by
+  obtain ⟨l, st, hst, c, _, _⟩ := C06_linecol s 0
+  have h0 : st = 0 := by omega
+  subst h0
+  have hl : (posToLineCol s 0).1 = 1 := by rw [l]; simp
+  have hc : (posToLineCol s 0).2 = 1 := by rw [c]; simp
+  exact Prod.ext hl hc
+
+/-- the position right after a `\\n` is column 1 of the next line -/
+theorem C06_linecol_after_newline (s : List Char) (p : Nat) (h : s[p]? = some '\n') :
+    posToLineCol s (p + 1) = ((posToLineCol s p).1 + 1, 1) := by
+  obtain ⟨l, st, hst, c, _, n⟩ := C06_linecol s (p + 1)
+  have hs : st = p + 1 := by
+    by_cases hle : st ≤ p
+    · exact absurd h (n p hle (by omega))
+    · omega
+  have hl : (posToLineCol s (p + 1)).1 = (posToLineCol s p).1 + 1 := by
+    rw [l, (C06_linecol s p).1, List.take_add_one, h]; simp; omega
+  have hc : (posToLineCol s (p + 1)).2 = 1 := by rw [c, hs]; simp
+  exact Prod.ext hl hc
+
+/-- any other step (also past the end of the text) stays on the line and advances the column by one -/
+theorem C06_linecol_next (s : List Char) (p : Nat) (h : s[p]? ≠ some '\n') :
+    posToLineCol s (p + 1) = ((posToLineCol s p).1, (posToLineCol s p).2 + 1) := by
+  obtain ⟨l', st', hst', c', b', n'⟩ := C06_linecol s (p + 1)
+  obtain ⟨l, st, hst, c, b, n⟩ := C06_linecol s p
+  have hs : st' = st := by
+    have h1 : st' ≤ p := by
+      rcases b' with h0 | hnl
+      · omega
+      · by_cases hle : st' ≤ p
+        · exact hle
+        · have : st' - 1 = p := by omega
+          rw [this] at hnl; exact absurd hnl h
+    by_cases hlt : st' < st
+    · rcases b with h0 | hnl
+      · omega
+      · exact absurd hnl (n' (st - 1) (by omega) (by omega))
+    · by_cases hgt : st < st'
+      · rcases b' with h0 | hnl
+        · omega
+        · exact absurd hnl (n (st' - 1) (by omega) (by omega))
+      · omega
+  have hcnt : (s.take (p + 1)).count '\n' = (s.take p).count '\n' := by
+    rw [List.take_add_one]
+    cases hp : s[p]? with
+    | none => simp
+    | some ch =>
+      have : ch ≠ '\n' := fun e => h (by rw [hp, e])
+      simp [this]
+  have hl : (posToLineCol s (p + 1)).1 = (posToLineCol s p).1 := by rw [l', l, hcnt]
+  have hc : (posToLineCol s (p + 1)).2 = (posToLineCol s p).2 + 1 := by rw [c', c, hs]; omega
+  exact Prod.ext hl hc
+
+/-- **Declarative characterisation.** `pos_to_linecol` is the *only* function that starts at
+(1, 1), moves to (line + 1, 1) after a `\n` and to (line, col + 1) after anything else — the
+three equations above pin it down for every text and every position. -/
+theorem C06_linecol_unique (s : List Char) (f : Nat → Nat × Int) (h0 : f 0 = (1, 1))
+    (hnl : ∀ p, s[p]? = some '\n' → f (p + 1) = ((f p).1 + 1, 1))
+    (hst : ∀ p, s[p]? ≠ some '\n' → f (p + 1) = ((f p).1, (f p).2 + 1)) (p : Nat) :
+    f p = posToLineCol s p := by
+  induction p with
+  | zero => rw [h0, C06_linecol_origin]
+  | succ p ih =>
+    by_cases h : s[p]? = some '\n'
+    · rw [hnl p h, C06_linecol_after_newline s p h, ih]
+    · rw [hst p h, C06_linecol_next s p h, ih]
+
 /-- **Span of a parse-tree node.**  In a well-formed tree the span of every node starts at its
 first terminal and ends right after its last one, and is not empty. -/
 theorem C06_tree_span (t : PT) (h : t.WF) :
